@@ -419,6 +419,11 @@ pub fn run(tier: Tier) -> i32 {
             };
             for f in forms {
                 if let Ok(Ok(c)) = guard(|| prepare(d, *f)) {
+                    if c.keys.len() > 8 && !thorough {
+                        // 15..20-key multisigs only in the thorough tier (mutation count x worlds)
+                        bump(&mut cen, "wide_descriptors_left_to_thorough");
+                        continue;
+                    }
                     if c.sane {
                         bump(&mut cen, "sane_descriptors");
                     }
